@@ -290,6 +290,7 @@ def _recipes():
         lambda np, a, b, f: _from_iter_ref(np, a, f), fmts=("coo",))
     add("dok_from_numpy", "DOK.from_numpy", lambda S, np, x, y, f: S.DOK.from_numpy(x.todense()), lambda np, a, b, f: a, fmts=("coo",))
     add("dok_setitem", "DOK.__setitem__", _dok_setitem, lambda np, a, b, f: _dok_setitem_ref(np, a, f), fmts=("dok",))
+    add("dok_setitem_fancy", "DOK.__setitem__", _dok_setitem_fancy, lambda np, a, b, f: _dok_setitem_fancy_ref(np, a, f), fmts=("dok",))
     add("zeros", "common.zeros", lambda S, np, x, y, f: S.zeros((2, 3), dtype=x.dtype), lambda np, a, b, f: np.zeros((2, 3), dtype=a.dtype), fmts=("coo",))
     add("ones", "common.ones", lambda S, np, x, y, f: S.ones((2, 3), dtype=x.dtype), lambda np, a, b, f: np.ones((2, 3), dtype=a.dtype), fmts=("coo",))
     add("empty", "common.empty", lambda S, np, x, y, f: S.empty((2, 3), dtype=x.dtype).shape, lambda np, a, b, f: (2, 3), fmts=("coo",))
@@ -358,6 +359,25 @@ def _dok_setitem_ref(np, a, f):
     out[0, 1] = f
     out[1, 1] = 7
     out[2, 2] = f
+    return out
+
+
+def _dok_setitem_fancy(S, np, x, y, f):
+    # integer-list key naming every axis (DOK._fancy_setitem) and a slice key: exact zeros, the fill value and other
+    # values, over stored and unstored positions.  With a non-zero fill a 0 is an ordinary value and must be stored
+    # (seeded C07-m5: `if value:` instead of `if value != fill_value:`)
+    d = S.DOK.from_coo(x.asformat("coo"))
+    d[[0, 0, 1, 2], [0, 1, 1, 2]] = np.array([0, f, 0, 7]).astype(x.dtype)
+    d[[1, 2], [0, 0]] = 0
+    d[2, 1:2] = 0
+    return d
+
+
+def _dok_setitem_fancy_ref(np, a, f):
+    out = a.copy()
+    out[[0, 0, 1, 2], [0, 1, 1, 2]] = np.array([0, f, 0, 7]).astype(a.dtype)
+    out[[1, 2], [0, 0]] = 0
+    out[2, 1:2] = 0
     return out
 
 
